@@ -269,9 +269,15 @@ def _rename_locals(fn: ast.FunctionDef, template) -> None:
             return
     if len(set(mapping.values())) != len(mapping):
         return
-    nested = [n for n in ast.walk(fn) if isinstance(n, (ast.FunctionDef, ast.Lambda, ast.ListComp, ast.DictComp, ast.SetComp, ast.GeneratorExp)) and n is not fn]
-    if any(isinstance(n, (ast.FunctionDef, ast.Lambda)) for n in nested):
-        return
+    # nested functions and lambdas: the renaming is applied uniformly to every Name below fn, which keeps closures and
+    # shadowing intact as long as no parameter of a nested function carries one of the names involved
+    involved = set(mapping) | set(mapping.values())
+    for n in ast.walk(fn):
+        if isinstance(n, (ast.FunctionDef, ast.Lambda)) and n is not fn:
+            a_ = n.args
+            pn = {x.arg for x in a_.posonlyargs + a_.args + a_.kwonlyargs} | ({a_.vararg.arg} if a_.vararg else set()) | ({a_.kwarg.arg} if a_.kwarg else set())
+            if pn & involved or (isinstance(n, ast.FunctionDef) and n.name in involved):
+                return
     for n in ast.walk(fn):
         if isinstance(n, ast.Name) and n.id in mapping:
             n.id = mapping[n.id]
@@ -309,6 +315,7 @@ def canonicalise(tree: ast.Module, rel: str = "") -> ast.Module:
                         q += ".setter"
                     if q in names:
                         _rename_locals(n, [(s, list(ns)) for s, ns in names[q]])
+                    walk(n, q + ".")
         walk(tree, "")
     ast.fix_missing_locations(tree)
     return tree
